@@ -347,13 +347,7 @@ inline std::string convert_to_hex(const std::string& str) {
 }
 
 class WKBFactoryImpl {
-    enum wkbGeometryType : uint32_t {
-        wkbPoint = 1,
-        wkbLineString = 5,   // B5: not the OGC code
-        wkbPolygon = 3,
-        wkbMultiPolygon = 6,
-        wkbSRID = 0x20000000
-    };
+    enum wkbGeometryType : uint32_t { wkbPoint = 1, wkbLineString = 2, wkbPolygon = 3, wkbMultiPolygon = 6, wkbSRID = 0x20000000 };
     enum class wkb_byte_order_type : uint8_t { XDR = 0, NDR = 1 };
 
     std::string m_data;
@@ -368,26 +362,24 @@ class WKBFactoryImpl {
     std::size_t m_polygon_size_offset = 0;
     std::size_t m_ring_size_offset = 0;
 
-    // B5: offset taken before the type is written
+    // B5: EWKB srid written without the SRID flag in the type
     std::size_t header(std::string& str, wkbGeometryType type, bool add_length) const {
         str_push(str, wkb_byte_order_type::NDR);
-        const std::size_t offset = str.size();
+        str_push(str, type);
         if (m_wkb_type == wkb_type::ewkb) {
-            str_push(str, type | wkbSRID);
             str_push(str, m_srid);
-        } else {
-            str_push(str, type);
         }
+        const std::size_t offset = str.size();
         if (add_length) {
             str_push(str, static_cast<uint32_t>(0));
         }
         return offset;
     }
 
-    // B4: no range check, two bytes only
+    // B4: no range check before narrowing
     void set_size(const std::size_t offset, const std::size_t size) {
         const auto s = static_cast<uint32_t>(size);
-        std::copy_n(reinterpret_cast<const char*>(&s), sizeof(uint16_t), &m_data[offset]);
+        std::copy_n(reinterpret_cast<const char*>(&s), sizeof(uint32_t), &m_data[offset]);
     }
 
 public:
@@ -398,13 +390,13 @@ public:
 
     explicit WKBFactoryImpl(int srid) : m_srid(srid) {}
 
-    // X1: y before x
+    // B7: hex exactly when it was not requested
     point_type make_point(const osmium::geom::Coordinates& xy) const {
         std::string data;
         header(data, wkbPoint, false);
-        str_push(data, xy.y);
         str_push(data, xy.x);
-        if (m_out_type == out_type::hex) {
+        str_push(data, xy.y);
+        if (m_out_type != out_type::hex) {
             return convert_to_hex(data);
         }
         return data;
@@ -418,29 +410,28 @@ public:
         str_push(m_data, xy.y);
     }
 
-    // B7: patches after the buffer was handed over
     linestring_type linestring_finish(std::size_t num_points) {
+        set_size(m_linestring_size_offset, num_points);
         std::string data;
         using std::swap;
         swap(data, m_data);
-        set_size(m_linestring_size_offset, num_points);
         if (m_out_type == out_type::hex) {
             return convert_to_hex(data);
         }
         return data;
     }
 
-    // B1: offset recorded after the placeholder was appended
     void polygon_start() {
         m_data.clear();
         set_size(header(m_data, wkbPolygon, true), 1);
-        str_push(m_data, static_cast<uint32_t>(0));
         m_ring_size_offset = m_data.size();
+        str_push(m_data, static_cast<uint32_t>(0));
     }
 
+    // X1: y before x
     void polygon_add_location(const osmium::geom::Coordinates& xy) {
-        str_push(m_data, xy.x);
         str_push(m_data, xy.y);
+        str_push(m_data, xy.x);
     }
 
     polygon_type polygon_finish(std::size_t num_points) {
@@ -460,7 +451,7 @@ public:
         m_multipolygon_size_offset = header(m_data, wkbMultiPolygon, true);
     }
 
-    // B3: the polygon level shares the ring level's slot
+    // B1: the polygon level shares the ring level's slot
     void multipolygon_polygon_start() {
         ++m_polygons;
         m_rings = 0;
@@ -478,7 +469,7 @@ public:
 
     void multipolygon_outer_ring_finish() { set_size(m_ring_size_offset, m_points); }
 
-    // B2: inner rings are not counted
+    // B1: inner rings are not counted
     void multipolygon_inner_ring_start() {
         m_points = 0;
         m_ring_size_offset = m_data.size();
@@ -505,7 +496,7 @@ public:
     }
 };
 
-// S1: polygons of a multipolygon are not separated; the linestring keeps its trailing comma; B6: appends instead of assigning
+// S1: polygons of a multipolygon are not separated, polygon coordinates use a fixed precision; B6: linestring_start appends
 class WKTFactoryImpl {
     std::string m_srid_prefix;
     std::string m_str;
@@ -517,7 +508,11 @@ public:
     using polygon_type = std::string;
     using multipolygon_type = std::string;
 
-    explicit WKTFactoryImpl(int /*srid*/, int precision = 7) : m_precision(precision) {}
+    explicit WKTFactoryImpl(int srid, int precision = 7) : m_precision(precision) {
+        if (srid != 4326) {
+            m_srid_prefix = "SRID=x;";
+        }
+    }
 
     point_type make_point(const osmium::geom::Coordinates& xy) const {
         std::string str{m_srid_prefix};
@@ -537,7 +532,7 @@ public:
         std::string str;
         using std::swap;
         swap(str, m_str);
-        str += ')';
+        str.back() = ')';
         return str;
     }
     void polygon_start() {
@@ -553,6 +548,7 @@ public:
         using std::swap;
         swap(str, m_str);
         str.back() = ')';
+        str += ')';
         return str;
     }
     void multipolygon_start() {
